@@ -98,7 +98,7 @@ def build(rng, *, block_size: int, sector_size: int, nblocks: int, tail_cut_sect
           disk_id: bytes | None = None, physical_sector_size: int = 4096, far_mb: int = 0, stale_offsets: bool = True,
           meta_item_order=None, item_gap: int = 0, creator: str = "vf writer", leave_alloc: bool = False,
           bat_mb: int | None = None, meta_mb: int | None = None, checksums: bool = True, meta_table_order=None, log_guids=(None, None),
-          extra_regions=(), extra_items=()):
+          extra_regions=(), extra_items=(), items_at_region_end: bool = False):
     """-> (SparseFile, Layer, meta).
 
     states[i]: 0 not-present, 1 undefined, 2 zero, 3 unmapped, 6 fully present, 7 partially present.
@@ -233,6 +233,11 @@ def build(rng, *, block_size: int, sector_size: int, nblocks: int, tail_cut_sect
         items.reverse()
     mt = struct.pack("<8s2xH20x", b"metadata", len(items))
     off = KB64 + item_gap
+    if items_at_region_end:
+        # the items are packed against the end of the 1 MiB metadata region: the last one ends exactly where the region ends
+        stored = [d for _g, d, _fl in items if d]
+        off = MB - sum(len(d) for d in stored) - item_gap * (len(stored) - 1)
+        assert off >= KB64
     blob = {}
     entries = []
     for g, d, fl in items:
@@ -243,7 +248,9 @@ def build(rng, *, block_size: int, sector_size: int, nblocks: int, tail_cut_sect
         entries.append(g + struct.pack("<III4x", off, len(d), fl))
         blob[off] = d
         off += len(d) + (item_gap if item_gap else 0)
-        off = -(-off // 8) * 8
+        if not items_at_region_end:
+            off = -(-off // 8) * 8
+        assert off <= MB + item_gap
     # the order of the table entries is independent of where the items are stored
     if meta_table_order == "shuffle":
         rng.shuffle(entries)
